@@ -149,8 +149,22 @@ class LLCase(object):
                 names.append(('Out %d ' % (o + 1) + d) if n > 1 else d)
         return names
 
-    def build(self):
+    mech_wrapper = 'none'
+
+    def mechanistic_model(self):
+        """the user's mechanistic model: bare, or already wrapped in a
+        ReducedMechanisticModel with nothing fixed (never fixed / fixed and
+        released again)"""
         model = toys.ToyMulti(self.n_out)
+        if self.mech_wrapper != 'none':
+            model = chi.ReducedMechanisticModel(model)
+            if self.mech_wrapper == 'reduced_released':
+                model.fix_parameters({'k': 0.3})
+                model.fix_parameters({'k': None})
+        return model
+
+    def build(self):
+        model = self.mechanistic_model()
         ems = [getattr(chi, name)() for name in self.em_names]
         times = [t.copy() for t in self.times]
         obs = [y.copy() for y in self.obs]
